@@ -104,7 +104,7 @@ struct ProbeStats { size_t probed = 0, skipped = 0; };
 inline void probe_C01(World& w, const WSnap& s, Sink& out, ProbeStats& st) {
     if (!completeFrames(s.o)) { st.skipped++; return; }
     st.probed++;
-    std::string p = w.path("c01.c3d"); std::string what;
+    std::string p = w.path("c01.c3d"); std::string what; freshDestination(p);
     Outcome oc = guarded([&] { w.c->write(p); }, &what);
     if (oc != OK) { V(out, "C01", std::string("roundtrip/save_throws/") + outcomeName(oc) + "/" + featureTags(s.o), what); return; }
     std::unique_ptr<C3D> L;
@@ -119,15 +119,18 @@ inline void probe_C01(World& w, const WSnap& s, Sink& out, ProbeStats& st) {
 inline bool probe_C14(World& w, const WSnap& s, Sink& out, Key& digest, std::string* bytesOut = nullptr) {
     std::string p1 = w.path("c14a.c3d"), p2 = w.path("c14b.c3d"), what;
     unsigned vgBefore = RUNNING_ON_VALGRIND ? VALGRIND_COUNT_ERRORS : 0;
+    freshDestination(p1);
     Outcome oc = guarded([&] { w.c->write(p1); }, &what);
     if (oc != OK) return false;   // not this property's business
     if (RUNNING_ON_VALGRIND && VALGRIND_COUNT_ERRORS != vgBefore) V(out, "C14", "undefined_bytes/memcheck", "memcheck reported " + S(VALGRIND_COUNT_ERRORS - vgBefore) + " error(s) (uninitialised bytes reaching write) during save");
     WSnap mid = snapWorld(w);
     if (mid.key != s.key) V(out, "C14", std::string("save_changed_object/") + (!(mid.o.h == s.o.h) ? "header" : !mid.o.sameParams(s.o) ? "parameters" : !mid.o.sameFrames(s.o) ? "frames" : "other"), "object differs after write()");
+    { std::string first; readAll(p1, first); longerDestination(p2, first.size(), (char)0xA5); }   // the second save goes over an existing, longer file
     oc = guarded([&] { w.c->write(p2); }, &what);
     if (oc != OK) { V(out, "C14", "second_save_throws", what); return false; }
     std::string b1, b2; readAll(p1, b1); readAll(p2, b2);
-    if (b1 != b2) {
+    if (b2.size() > b1.size() && b2.compare(0, b1.size(), b1) == 0) V(out, "C14", "destination_leftover_kept", "saved over a longer file, the result keeps " + S(b2.size() - b1.size()) + " bytes of it: the bytes of the file are not determined by the object");
+    else if (b1 != b2) {
         size_t off = 0; while (off < b1.size() && off < b2.size() && b1[off] == b2[off]) ++off;
         std::string region = off < 512 ? "header" : "body";
         V(out, "C14", "two_saves_differ/" + region, "first differing offset " + S(off) + " sizes " + S(b1.size()) + "/" + S(b2.size()));
@@ -245,6 +248,11 @@ inline void sweep_C11(World& w, const WSnap& s, Sink& out, C11Stats& st) {
                 st.lookups++; Outcome oc = guarded(gt.call);
                 if (gt.type == t && oc != OK) V(out, "C11", std::string("typed_getter/own_type->") + outcomeName(oc) + "/" + gt.nm, gs.name + ":" + gs.params[pi].name);
                 if (gt.type != t && oc != INVALID_ARGUMENT) V(out, "C11", std::string("typed_getter/other_type->") + outcomeName(oc) + "/as_" + gt.nm + "/is_" + SI(t), gs.name + ":" + gs.params[pi].name);
+            }
+            {   // what the getters answer must survive a set() that is refused (a copy is used: the object is not touched)
+                Param q = p; st.lookups += 3;
+                Outcome r1 = guarded([&] { q.set(std::vector<int>() = {1, 2}, {3}); }), r2 = guarded([&] { q.set(std::vector<float>() = {1.f, 2.f}, {3}); }), r3 = guarded([&] { q.set(std::vector<std::string>() = {"a", "b"}, {3}); });
+                if (r1 != OK && r2 != OK && r3 != OK && !(snapParam(q) == gs.params[pi])) V(out, "C11", "getters_changed_by_refused_set/is_" + SI(t), gs.name + ":" + gs.params[pi].name + " answers differently after three refused set() calls");
             }
         }
     }
